@@ -100,16 +100,22 @@ def gen_build(r):
         L.append("vssetname %d %s" % (i, name))
         if r.random() < 0.5:
             L.append("vssetclass %d cls%d" % (i, i))
-        for f, t, o in flds:
-            L.append("vsfdefine %d %s %d %d" % (i, f, t, o))
+        state = r.choice(["full"] * 5 + ["nofields", "norecords"])   # unusual stored objects: a vdata without fields / records
         fs = ",".join(f for f, _, _ in flds)
-        L.append("vssetfields %d %s" % (i, fs))
-        if r.random() < 0.15:
-            x = len(inv.ext)
-            inv.ext.append(x)
-            L.append("vssetexternalfile %d %d 0" % (i, x))
-        nrec = r.choice([1, 3, 10, 40])
-        L.append("vswrite %d %d %d" % (i, nrec, r.randrange(100)))
+        nrec = 0
+        if state != "nofields":
+            for f, t, o in flds:
+                L.append("vsfdefine %d %s %d %d" % (i, f, t, o))
+            L.append("vsdefinefields %d %s" % (i, fs))
+        else:
+            fs = ""
+        if state == "full":
+            if r.random() < 0.15:
+                x = len(inv.ext)
+                inv.ext.append(x)
+                L.append("vssetexternalfile %d %d 0" % (i, x))
+            nrec = r.choice([1, 3, 10, 40])
+            L.append("vswrite %d %d %d" % (i, nrec, r.randrange(100)))
         if r.random() < 0.5:
             nt_, n_ = r.randrange(4), r.choice([1, 3])
             L.append("vssetattr %d -1 va%d %d %d %d" % (i, i, nt_, n_, r.randrange(50)))
@@ -172,7 +178,8 @@ def gen_build(r):
                 x = len(inv.ext)
                 inv.ext.append(x)
                 L.append("grsetexternalfile %d %d 0" % (i, x))
-            L.append("grwriteimage %d %d" % (i, r.randrange(100)))
+            if r.random() < 0.88:     # else: an image that was created but never written
+                L.append("grwriteimage %d %d" % (i, r.randrange(100)))
             if r.random() < 0.5:
                 nt_, n_ = r.randrange(4), r.choice([1, 5])
                 L.append("grsetattr 1 %d ra%d %d %d %d" % (i, i, nt_, n_, r.randrange(50)))
@@ -267,6 +274,16 @@ def ro_call(r, inv):
     vgn = r.choice(inv.vgroups) if inv.vgroups and r.random() < 0.85 else "nosuch"
     x = r.choice(inv.ext + [7]) if r.random() < 0.5 else 7
 
+    def name_of(kind, pfx):
+        """a rename / creation target: half of the time the name of ANOTHER existing object of that kind (the library
+        then takes its 'name in use' / sharing / lookup path before or instead of the plain one)"""
+        pool = {"vd": [v[0] for v in inv.vdatas], "vg": list(inv.vgroups), "sds": [x_[0] for x_ in inv.sds],
+                "img": list(inv.images), "dim": ["dn0", "dn1", "dn2"] + ["fakeDim%d" % k for k in range(8)],
+                "cls": ["cls0", "cls1", "gcls", "Var0.0", "Dim0.0", "RI0.0", "Attr0.0", "CDF0.0"]}.get(kind, [])
+        if pool and r.random() < 0.5:
+            return r.choice(pool)
+        return nm(r, pfx)
+
     def attr_of(kind, slotmax=3):
         """(slot, name, nt, count): an EXISTING attribute of an object of this kind half of the time (same type, same or
         smaller count: the library then takes its update-in-place path), else a new name"""
@@ -309,31 +326,32 @@ def ro_call(r, inv):
         # ---- Vgroup
         (3, "vattachn %d 0 %s %s" % (g, vgn, r.choice(["r", "r", "w"]))),
         (3, "vattach %d 0 -1 w" % g),
-        (3, "vsetname %d %s" % (g, nm(r, "n"))), (2, "vsetclass %d %s" % (g, nm(r, "c"))),
+        (3, "vsetname %d %s" % (g, name_of("vg", "n"))), (2, "vsetclass %d %s" % (g, name_of("cls", "c"))),
         (3, "vaddtagref %d %d %d" % (g, t, rf)), (2, "vinsertvs %d %d" % (g, s)), (1, "vinsertvg %d %d" % (g, (g + 1) % 3)),
         (3, "vdeletetagref %d %d %d" % (g, t, rf)), (3, "vdeleten 0 %s" % vgn),
         (3, "vsetattr %d %s %d %d %d" % (a_vg[0], a_vg[1], a_vg[2], a_vg[3], r.randrange(50))),
-        (2, "vgetattr %d 0" % g), (2, "vinfo %d" % g), (1, "vgetid 0 -1"), (1, "vfind 0 %s" % vgn), (1, "vlone 0"),
+        (2, "vgetattr %d 0" % g), (3, "vinfo %d" % g), (1, "vgetid 0 -1"), (1, "vfind 0 %s" % vgn), (1, "vlone 0"),
         (2, "vdetach %d" % g),
         # ---- Vdata
         (4, "vsattachn %d 0 %s %s" % (s, vdn, r.choice(["r", "r", "w"]))),
         (3, "vsattach %d 0 -1 w" % s),
-        (3, "vssetname %d %s" % (s, nm(r, "n"))), (2, "vssetclass %d %s" % (s, nm(r, "c"))),
+        (3, "vssetname %d %s" % (s, name_of("vd", "n"))), (2, "vssetclass %d %s" % (s, name_of("cls", "c"))),
         (2, "vsfdefine %d q%d %d 1" % (s, r.randrange(3), r.randrange(4))),
-        (3, "vssetfields %d %s" % (s, r.choice([v[1] for v in inv.vdatas] + ["a"]))),
+        (3, "vssetfields %d %s" % (s, r.choice([v[1] for v in inv.vdatas if v[1]] + ["a"]))),
+        (4, "vsdefinefields %d %s" % (s, r.choice(["a", "a,b", "PX", "PX,PY", "q0", "q1,q2", "IDX"]))),
         (4, "vswrite %d %d %d" % (s, r.choice([1, 5]), r.randrange(50))),
         (3, "vsread %d %d" % (s, r.choice([1, 3]))), (2, "vsseek %d %d" % (s, r.choice([0, 1, 2]))),
         (3, "vssetattr %d -1 %s %d %d %d" % (a_vs[0], a_vs[1], a_vs[2], a_vs[3], r.randrange(50))),
         (1, "vssetattr %d 0 %s %d %d %d" % (s, nm(r, "at"), r.randrange(4), r.choice([1, 3]), r.randrange(50))),
-        (2, "vsgetattr %d -1 0" % s), (3, "vsdeleten 0 %s" % vdn), (2, "vsinfo %d" % s), (1, "vsfind 0 %s" % vdn),
+        (2, "vsgetattr %d -1 0" % s), (3, "vsdeleten 0 %s" % vdn), (4, "vsinfo %d" % s), (1, "vsfind 0 %s" % vdn),
         (1, "vsgetid 0 -1"), (1, "vslone 0"), (2, "vssetinterlace %d %d" % (s, r.choice([0, 1]))),
         (1, "vssetblocksize %d 128" % s), (1, "vssetnumblocks %d 4" % s), (1, "vsappendable %d 64" % s),
         (2, "vssetexternalfile %d %d 0" % (s, x)),
-        (2, "vhstoredata 0 %d %d %s hc" % (r.choice([1, 4]), r.randrange(50), nm(r, "h"))),
+        (2, "vhstoredata 0 %d %d %s hc" % (r.choice([1, 4]), r.randrange(50), name_of("vd", "h"))),
         (2, "vhmakegroup 0 %d %d %d %d %s gc" % (t, rf, t, rf, nm(r, "hg"))),
         (2, "vsdetach %d" % s),
         # ---- SD
-        (3, "sdcreate %d 0 %s %d %d %s" % (d, nm(r, "ns"), r.randrange(6), r.choice([1, 2]), "4 3")),
+        (3, "sdcreate %d 0 %s %d %d %s" % (d, name_of("sds", "ns"), r.randrange(6), r.choice([1, 2]), "4 3")),
         (6, "sdselect %d 0 %d" % (d, r.randrange(max(1, len(inv.sds) + 1)))),
         (5, "sdwritedata %d %d %d 0" % (d, r.randrange(50), r.choice([0, 0, 1, 2]))),
         (4, "sdreaddata %d" % d),
@@ -342,17 +360,17 @@ def ro_call(r, inv):
         (2, "sdsetattr 2 %d 0 %s %d %d %d" % (a_dim[0], a_dim[1], a_dim[2], a_dim[3], r.randrange(50))),
         (4, "sdwritedim %d %d %d" % (d, r.choice([0, 0, 1]), r.randrange(50))),
         (2, "sdreadattr %d %d 0 0" % (r.choice([0, 1, 2]), d)),
-        (3, "sdsetdimname %d 0 %s" % (d, nm(r, "dn"))), (3, "sdsetdimscale %d 0 %d %d" % (d, r.randrange(4), r.randrange(50))),
+        (5, "sdsetdimname %d %d %s" % (d, r.choice([0, 0, 1, 2]), name_of("dim", "dn"))), (3, "sdsetdimscale %d 0 %d %d" % (d, r.randrange(4), r.randrange(50))),
         (5, "sdgetdimscale %d 0" % d), (2, "sdsetdimstrs %d 0" % d), (2, "sdsetdimval_comp %d 0 %d" % (d, r.choice([0, 1]))),
         (3, "sdsetdatastrs %d" % d), (3, "sdsetcal %d" % d), (3, "sdsetfillvalue %d %d" % (d, r.randrange(50))),
         (3, "sdsetrange %d %d" % (d, r.randrange(50))), (3, "sdsetcompress %d %d" % (d, r.choice([1, 2, 3]))),
         (3, "sdsetchunk %d %d" % (d, r.choice([0, 1, 3]))), (3, "sdsetexternalfile %d %d 0" % (d, x)),
         (1, "sdsetnbitdataset %d" % d), (2, "sdsetfillmode 0 %d" % r.choice([0, 256])), (1, "sdsetblocksize %d 512" % d),
         (1, "sdsetchunkcache %d 2" % d), (2, "sdsetaccesstype %d" % d), (3, "sdwritechunk %d %d" % (d, r.randrange(50))),
-        (2, "sdreadchunk %d" % d), (3, "sdinfo %d" % d), (1, "sdfileinfo 0"), (1, "sdnametoindex 0 sds0"), (1, "sdfindattr 0 fattr"),
+        (2, "sdreadchunk %d" % d), (5, "sdinfo %d" % d), (1, "sdfileinfo 0"), (1, "sdnametoindex 0 sds0"), (1, "sdfindattr 0 fattr"),
         (3, "sdendaccess %d" % d),
         # ---- GR
-        (3, "grcreate %d 0 %s %d %d 4 3" % (i, nm(r, "ni"), r.choice([1, 3]), r.randrange(3))),
+        (3, "grcreate %d 0 %s %d %d 4 3" % (i, name_of("img", "ni"), r.choice([1, 3]), r.randrange(3))),
         (5, "grselect %d 0 %d" % (i, r.randrange(max(1, len(inv.images) + 1)))),
         (4, "grwriteimage %d %d" % (i, r.randrange(50))), (4, "grreadimage %d" % i),
         (3, "grsetattr 0 0 %s %d %d %d" % (a_gr[1], a_gr[2], a_gr[3], r.randrange(50))),
@@ -360,7 +378,7 @@ def ro_call(r, inv):
         (2, "grgetattr %d %d 0" % (r.choice([0, 1]), i)), (3, "grwritelut %d %d" % (i, r.randrange(50))), (2, "grreadlut %d" % i),
         (3, "grsetcompress %d %d" % (i, r.choice([1, 3]))), (3, "grsetchunk %d" % i), (3, "grsetexternalfile %d %d 0" % (i, x)),
         (2, "grsetaccesstype %d" % i), (1, "grsetchunkcache %d 2" % i), (1, "grreqimageil %d %d" % (i, r.choice([0, 1, 2]))),
-        (2, "grinfo %d" % i), (1, "grfileinfo 0"), (1, "grnametoindex 0 img0"), (3, "grendaccess %d" % i),
+        (3, "grinfo %d" % i), (1, "grfileinfo 0"), (1, "grnametoindex 0 img0"), (3, "grendaccess %d" % i),
         # ---- AN
         (3, "ancreate %d 0 %d %d %d" % (n, t, rf, r.choice([0, 1]))), (3, "ancreatef %d 0 %d" % (n, r.choice([2, 3]))),
         (4, "anselect %d 0 %d %d" % (n, r.randrange(2), r.randrange(4))),
@@ -396,7 +414,8 @@ def gen_ro_program(r, inv):
     for j, v in enumerate(inv.vdatas[:3]):
         if r.random() < 0.7:
             L.append("vsattachn %d 0 %s r" % (j, v[0]))
-            L.append("vssetfields %d %s" % (j, v[1]))
+            if v[1]:
+                L.append("vssetfields %d %s" % (j, v[1]))
     for j, v in enumerate(inv.vgroups[:3]):
         if r.random() < 0.7:
             L.append("vattachn %d 0 %s r" % (j, v))
@@ -420,10 +439,19 @@ def gen_ro_program(r, inv):
             L.append("anselect %d 0 0 %d" % (t % 3, t))
     n = r.randrange(25, 70)
     refuse_at = r.randrange(n) if r.random() < 0.35 and not same_twice else -1
+    INFO = {"vs": "vsinfo %s", "v": "vinfo %s", "sd": "sdinfo %s", "gr": "grinfo %s"}
     for k in range(n):
         if k == refuse_at:
             L += refused_write_open(r)
-        L.append(ro_call(r, inv))
+        c = ro_call(r, inv)
+        t = c.split()
+        # inquiry - mutator - inquiry: a refused request must leave no trace in what the handle shows
+        pfx = next((p_ for p_ in ("vs", "sd", "gr", "v") if t[0].startswith(p_) and t[0] not in ("vstart", "vend")), None)
+        if pfx and t[0] in MUT_ALL and r.random() < 0.45 and len(t) > 1 and t[1].isdigit():
+            slot = t[2] if t[0] in ("sdsetattr", "grsetattr") and len(t) > 2 else t[1]
+            L += [INFO[pfx] % slot, c, INFO[pfx] % slot]
+        else:
+            L.append(c)
     L += ["closeall", "check", "dump 0"]
     return L
 
@@ -551,7 +579,7 @@ def run_histories(ctx, hists, tag):
 
 
 CLAUSE = {"1": "mutator-succeeded", "2": "write-reached-device", "3": "file-created", "4": "bytes-changed",
-          "5": "objects-changed", "8": "unknown-op", "9": "crash"}
+          "5": "objects-changed", "6": "inquiry-changed", "8": "unknown-op", "9": "crash"}
 
 
 def violations_of(S, lo, hi):
@@ -710,7 +738,7 @@ def gen_model_history(r, name):
                 "vattach %d 0 -1 w" % g_, "vsattach %d 0 -1 w" % s_, "vattachn %d 0 %s %s" % (g_, vgn, r.choice("rrw")),
                 "vsattachn %d 0 %s %s" % (s_, vdn, r.choice("rrw")), "vsetname %d x" % g_, "vsetclass %d x" % g_,
                 "vaddtagref %d %d %d" % (g_, t, rf), "vdeletetagref %d %d %d" % (g_, t, rf), "vssetname %d x" % s_,
-                "vssetclass %d x" % s_, "vswrite %d 1 2" % s_, "vdetach %d" % g_, "vsdetach %d" % s_,
+                "vssetclass %d x" % s_, "vswrite %d 1 2" % s_, "vsdefinefields %d PX" % s_, "vsdefinefields %d a" % s_, "vdetach %d" % g_, "vsdetach %d" % s_,
                 "vdeleten 0 %s" % vgn, "vsdeleten 0 %s" % vdn]))
         else:
             L.append(r.choice([
@@ -726,7 +754,7 @@ def gen_model_history(r, name):
 
 RC_DECISIVE = set("""startaccess startread startwrite write trunc setlength putelement dupdd deldd reuse hlcreate hxcreate hccreate
 hmccreate hlconvert hsync hcache vattach vsattach vattachn vsattachn vsetname vsetclass vaddtagref vdeletetagref vssetname vssetclass
-vswrite vdeleten vsdeleten appendable endaccess vdetach vsdetach hclose hopen""".split())
+vswrite vsdefinefields vdeleten vsdeleten appendable endaccess vdetach vsdetach hclose hopen""".split())
 
 
 def run_model(ctx):
